@@ -285,7 +285,8 @@ func validateSequenceCase(ao int, p []int, subjects [][]int) {
 				return
 			}
 			cc.Alias = fmt.Sprintf("e%d", k)
-			if _, err := db.AddAndSign(d, *cc, false); err != nil {
+			art, err := db.AddAndSign(d, *cc, false)
+			if err != nil {
 				r = 0
 				if !strings.Contains(err.Error(), "validate") {
 					fmt.Fprintf(out, "NOTE validate-sequence %d|%s|%s: refused with another error: %v\n", ao, join(p), join(s), err)
@@ -294,6 +295,28 @@ func validateSequenceCase(ao int, p []int, subjects [][]int) {
 				return
 			}
 			r = 1
+			// what was built names the subject as written (a judgement, accepted or not, leaves the subject alone)
+			if art != nil && art.Certificate != nil {
+				var want []string
+				for i := len(parts) - 1; i >= 0; i-- { // the certificate lists the attributes in reverse written order
+					want = append(want, strings.SplitN(parts[i], "=", 2)[0])
+				}
+				var got []string
+				for _, rdn := range art.Certificate.TBSCertificate.Subject {
+					for _, atv := range rdn {
+						name := atv.Type.String()
+						for short, oid := range map[string]string{"CN": "2.5.4.3", "O": "2.5.4.10", "C": "2.5.4.6", "L": "2.5.4.7"} {
+							if oid == name {
+								name = short
+							}
+						}
+						got = append(got, name)
+					}
+				}
+				if strings.Join(got, ",") != strings.Join(want, ",") {
+					fmt.Fprintf(out, "SELFFAIL validate-sequence %d|%s|%s: the certificate built after earlier judgements lists the subject attributes as %v, the configuration says %v (reversed)\n", ao, join(p), join(s), got, want)
+				}
+			}
 		}()
 		if r >= 0 {
 			fmt.Fprintf(out, "V %d|%s|%s|%d|1\n", ao, join(p), join(s), r)
@@ -339,6 +362,23 @@ func streamValidate() {
 		if i%100 == 0 {
 			validateSessionCase(ao, p, s)
 		}
+	}
+	// long attribute lists (a profile may list an attribute type many times, e.g. several OU): positions beyond 64
+	for k := 0; k < 40; k++ {
+		n := 60 + rng.Intn(12)
+		p := make([]int, n)
+		for j := range p {
+			p[j] = 2*(1+rng.Intn(4)) + 1 // optional O / C / 1.2.3.4 / L
+		}
+		p[n-1-rng.Intn(3)] = 0 // a required CN near the end
+		s := make([]int, 1+rng.Intn(3))
+		for j := range s {
+			s[j] = 1 + rng.Intn(4)
+		}
+		if k%2 == 0 {
+			s = append(s, 0)
+		}
+		validateCase(rng.Intn(2), p, false, s)
 	}
 	// several entities judged one after the other in one open database under one profile: every verdict is the one of the
 	// profile as it was given (a rejection must not leave anything behind that changes the next verdict)
